@@ -58,9 +58,28 @@ def rule_r1(ck, prog, rule='C09.R1', fname='HttpTraceContext::InjectImpl', want_
                         bad.append((n, 'the buffer is handed to %s, which is not analysed' % strip_targs(n.get('c', ''))))
     f0 = f
     for (f, bid) in hosts:
+      # pointer aliases into the buffer: `char *const p = &buf[K];` (never re-pointed) - p[j] is buf[K + j]
+      alias = {}
+      for m in f.nodes:
+          if m['k'] == 'declstmt':
+              for d in m['decls']:
+                  if d.get('init') is not None and d['init'] >= 0 and d['t'].replace('const', '').replace(' ', '') == 'char*':
+                      a_ = strip_casts(f, d['init'])
+                      if a_['k'] == 'unop' and a_['op'] == '&':
+                          sb = strip_casts(f, a_['e'])
+                          if sb['k'] == 'subscript' and strip_casts(f, sb['base']).get('id') == bid and f.nodes[sb['index']].get('v') is not None:
+                              rewritten = [x for x in f.nodes for (v_, s_, vx_) in defs_in_node(f, x) if v_ == d['id'] and x['k'] != 'declstmt' and s_]
+                              if not rewritten:
+                                  alias[d['id']] = (f.nodes[sb['index']]['v'], sb['i'])
+      alias_anchor = {v[1] for v in alias.values()}
       for n in f.nodes:
-        if n['k'] == 'subscript' and strip_casts(f, n['base']).get('id') == bid:
+        base_id = strip_casts(f, n['base']).get('id') if n['k'] == 'subscript' else None
+        if n['k'] == 'subscript' and (base_id == bid or base_id in alias):
+            if n['i'] in alias_anchor:
+                continue      # the `&buf[K]` that initialises an alias: not an access
             iv = f.nodes[n['index']].get('v')
+            if iv is not None and base_id in alias:
+                iv += alias[base_id][0]
             if iv is None:
                 bad.append((n, 'index is not a compile-time constant'))
                 continue
@@ -69,8 +88,10 @@ def rule_r1(ck, prog, rule='C09.R1', fname='HttpTraceContext::InjectImpl', want_
             pm = f.parent_map()
             par = f.nodes[pm[n['i']]] if n['i'] in pm else None
             if par is not None and par['k'] == 'binop' and par['op'] == '=' and par['lhs'] == n['i']:
-                ranges.append((iv, iv + 1, n))
-                lits[iv] = f.nodes[par['rhs']].get('v')
+                if not any(r_[0] == iv and r_[1] == iv + 1 for r_ in ranges):     # (the same byte written in two exclusive branches counts once)
+                    ranges.append((iv, iv + 1, n))
+                v_new = f.nodes[par['rhs']].get('v')
+                lits[iv] = v_new if (iv not in lits or lits[iv] == v_new) else None
             elif par is not None and par['k'] == 'unop' and par['op'] == '&':
                 # &buf[k] handed to a span<char,N>
                 gp = f.nodes[pm[par['i']]] if par['i'] in pm else None
